@@ -288,6 +288,9 @@ impl<'d> Interp<'d> {
                     return Value::Null;
                 }
                 let vals: Vec<Value> = rel.rows.iter().map(|r| r[0].clone()).collect();
+                if self.two_valued_in.get() {
+                    return Value::Bool((in_values(&v, &vals) == Some(true)) != *negated);
+                }
                 tv(in_values(&v, &vals).map(|b| b != *negated))
             }
             Expr::Quantified { e, op, all, q } => {
